@@ -717,6 +717,10 @@ def bounds_sound(F, R, tier="quick"):
                ("3.9x>=42.9 | x int [0,100]", ("IntegerRange", 0, 100), ("Real", 0.0, 1.0), [(bop("Mul", num(3.9), x), "GreaterOrEqual", 42.9)]),
                ("1.9x<=15.2 | x int [0,100]", ("IntegerRange", 0, 100), ("Real", 0.0, 1.0), [(bop("Mul", num(1.9), x), "LessOrEqual", 15.2)]),
                ("x+y<=0.3, x>=0.1, y>=0.2", ("NonNegativeReal", 0.0, 1.0), ("NonNegativeReal", 0.0, 1.0), [(bop("Add", x, y), "LessOrEqual", 0.3), (x, "GreaterOrEqual", 0.1), (y, "GreaterOrEqual", 0.2)]),
+               # a tiny coefficient on a very wide variable still moves the other variable's bound
+               ("y<=1e-10x | x in [0,1e12], y in [0,100]", ("NonNegativeReal", 0.0, 1e12), ("NonNegativeReal", 0.0, 100.0), [(bop("Sub", y, bop("Mul", num(1e-10), x)), "LessOrEqual", 0.0)]),
+               ("y>=50-1e-10x | x in [0,1e12], y in [0,100]", ("NonNegativeReal", 0.0, 1e12), ("NonNegativeReal", 0.0, 100.0), [(bop("Add", y, bop("Mul", num(1e-10), x)), "GreaterOrEqual", 50.0)]),
+               ("1e-12x-y>=-1 | x in [-1e13,1e13], y in [-100,100]", ("Real", -1e13, 1e13), ("Real", -100.0, 100.0), [(bop("Sub", bop("Mul", num(1e-12), x), y), "GreaterOrEqual", -1.0)]),
                ("0.1x+0.2y>=0.3 | [0,1]^2", ("NonNegativeReal", 0.0, 1.0), ("NonNegativeReal", 0.0, 1.0), [(bop("Add", bop("Mul", num(0.1), x), bop("Mul", num(0.2), y)), "GreaterOrEqual", 0.1 * 1 + 0.2 * 1)])]
     relf = {"LessOrEqual": lambda a, b: a <= b, "GreaterOrEqual": lambda a, b: a >= b, "Equal": lambda a, b: a == b}
     for label, dx, dy, cs in inexact:
@@ -747,6 +751,7 @@ def bounds_sound(F, R, tier="quick"):
             if d[0] == "IntegerRange":
                 ps = {Fr(i) for i in range(int(d[1]), min(int(d[2]), 20) + 1)}
             return sorted(ps)
+        tol_x = Fr(0)     # the published domain is held to exact containment: these models are about ends that land within a rounding error of a declared end
         for a, b in it.product(pts_of(dx), pts_of(dy)):
             env = {"x": a, "y": b}
             if all(relf[rl](value(e, env), Fr(c)) for e, rl, c in cs):
@@ -755,7 +760,7 @@ def bounds_sound(F, R, tier="quick"):
                     if (lo != -INF and v_ < Fr(lo) - tol) or (hi != INF and v_ > Fr(hi) + tol):
                         bad.setdefault(("unsound", "inexact:" + label), "%s: the feasible point x=%s, y=%s is outside the derived range of %s [%r, %r]" % (label, a, b, nm, lo, hi))
                     wk, wa = written[nm]
-                    if len(wa) == 2 and ((wa[0] != -INF and v_ < Fr(wa[0]) - tol) or (wa[1] != INF and v_ > Fr(wa[1]) + tol)):
+                    if len(wa) == 2 and ((wa[0] != -INF and v_ < Fr(wa[0]) - tol_x) or (wa[1] != INF and v_ > Fr(wa[1]) + tol_x)):
                         bad.setdefault(("domain", "inexact:" + label), "%s: the feasible point x=%s, y=%s is outside the domain written back for %s: %s(%r, %r)" % (label, a, b, nm, wk, wa[0], wa[1]))
     R.count("BOUNDS-SOUND.models", n_models)
     R.count("BOUNDS-SOUND.constraints", len(cons))
